@@ -11,6 +11,12 @@ Ltac ksimp :=
   cbn [k_stage k_blockSize k_inBuffSize k_outBuffSize k_inBuffPos k_inToCompress k_inBuffTarget k_inPend k_outContent
        k_outFlushed k_outPend k_frameEnded k_held k_expectOut k_appliedSI k_cs g_k g_in g_ip g_out g_ocap] in *.
 
+Ltac ki_close :=
+  auto; try congruence; try lia;
+  try (intros; repeat split; auto; fail);
+  try (match goal with H : k_stage _ <> KInit -> _ |- _ => intros; apply H; congruence end);
+  try (match goal with |- if ?b then _ else _ => destruct b; auto; fail end).
+
 Section CProofs.
 Variable CS : Type.
 Variable cs_begin : CS -> fconf -> N -> CS.
@@ -109,6 +115,40 @@ Proof.
   - exists (m1 ++ m2). rewrite j2, j1, app_assoc. reflexivity.
 Qed.
 
+Lemma chunks_in_app a b : chunks_in (a ++ b) = chunks_in a ++ chunks_in b.
+Proof. unfold chunks_in. rewrite map_app, concat_app. reflexivity. Qed.
+
+Lemma GStep_mk cs0 chunks g g' more (d e : bytes) :
+  chunks_in more ++ k_inPend (g_k g') ++ k_held (g_k g') ++ g_in g' = k_inPend (g_k g) ++ k_held (g_k g) ++ g_in g ->
+  outs cs0 (chunks ++ more) = outs cs0 chunks ++ d ->
+  g_out g' = g_out g ++ e ->
+  e ++ k_outPend (g_k g') = k_outPend (g_k g) ++ d ->
+  g_ip g' + lenN (g_in g') = g_ip g + lenN (g_in g) ->
+  lenN (g_in g') <= lenN (g_in g) ->
+  g_ocap g' + lenN e = g_ocap g ->
+  GStep cs0 chunks (chunks ++ more) g g'.
+Proof.
+  intros Hin Hout He Hpend Hip Hlen Hcap. constructor; auto.
+  - rewrite chunks_in_app, <- app_assoc, Hin. reflexivity.
+  - exists d. split; [exact Hout|]. rewrite He, <- app_assoc, Hpend. reflexivity.
+  - rewrite He, lenN_app. lia.
+  - exists e. exact He.
+  - exists more. reflexivity.
+Qed.
+
+Lemma GStep_same cs0 chunks g g' (e : bytes) :
+  k_inPend (g_k g') ++ k_held (g_k g') ++ g_in g' = k_inPend (g_k g) ++ k_held (g_k g) ++ g_in g ->
+  g_out g' = g_out g ++ e ->
+  e ++ k_outPend (g_k g') = k_outPend (g_k g) ->
+  g_ip g' + lenN (g_in g') = g_ip g + lenN (g_in g) ->
+  lenN (g_in g') <= lenN (g_in g) ->
+  g_ocap g' + lenN e = g_ocap g ->
+  GStep cs0 chunks chunks g g'.
+Proof.
+  intros Hin He Hpend Hip Hlen Hcap.
+  pose proof (GStep_mk cs0 chunks g g' [] [] e) as H. rewrite !app_nil_r in H. apply H; auto.
+Qed.
+
 (* why the loop of one call stopped *)
 Inductive StopWhy (P : kparams) (dir : directive) (g' : gstate) : Prop :=
 | SW_full : k_stage (g_k g') = KFlush -> g_ocap g' = 0 -> k_outFlushed (g_k g') < k_outContent (g_k g') -> StopWhy P dir g'
@@ -141,38 +181,212 @@ Proof.
     assert (Hall : tk (N.min gcap toFlush) (k_outPend k) = k_outPend k) by (apply tk_all; lia).
     destruct (k_frameEnded k) eqn:Efe; ksimp; exists chunks.
     + (* frame ended: session reset *)
-      refine (conj _ (conj _ (conj _ _))).
-      * destruct K. constructor; ksimp; auto; try congruence; try lia.
-        all: try (destruct (kp_stableIn P); auto; fail).
+      split; [|split; [|split]].
+      * destruct K. constructor; ksimp; ki_close.
         intros _. split; [reflexivity|]. apply ki_ended0. exact Efe.
-      * constructor; ksimp; try reflexivity; try lia.
-        -- exists []. rewrite !app_nil_r, Hall. split; reflexivity.
-        -- rewrite lenN_app, Hall. lia.
-        -- eexists; reflexivity.
-        -- exists []. rewrite app_nil_r. reflexivity.
+      * apply GStep_same with (e := tk (N.min gcap toFlush) (k_outPend k)); ksimp; try reflexivity; try lia.
+        -- rewrite !app_nil_r. exact Hall.
+        -- rewrite Hall. lia.
       * apply SW_ended; ksimp; auto.
       * intros _. exact Hh.
-    + refine (conj _ (conj _ (conj eq_refl (conj _ Hh)))).
-      * destruct K. constructor; ksimp; auto; try congruence; try lia.
-        all: try (intros; repeat split; auto; fail).
-      * constructor; ksimp; try reflexivity; try lia.
-        -- exists []. rewrite !app_nil_r, Hall. split; reflexivity.
-        -- rewrite lenN_app, Hall. lia.
-        -- eexists; reflexivity.
-        -- exists []. rewrite app_nil_r. reflexivity.
+    + split; [|split; [|split; [reflexivity|split; [|exact Hh]]]].
+      * destruct K. constructor; ksimp; ki_close.
+      * apply GStep_same with (e := tk (N.min gcap toFlush) (k_outPend k)); ksimp; try reflexivity; try lia.
+        -- rewrite !app_nil_r. exact Hall.
+        -- rewrite Hall. lia.
       * unfold phi. ksimp. rewrite Hst. lia.
   - (* output full before the flush completes *)
     assert (Hmin : N.min gcap toFlush = gcap) by lia.
-    rewrite Hmin. ksimp. exists chunks. refine (conj _ (conj _ (conj _ _))).
-    + destruct K. constructor; ksimp; auto; try congruence.
+    rewrite Hmin. ksimp. exists chunks. split; [|split; [|split]].
+    + destruct K. constructor; ksimp; ki_close.
       rewrite len_dr. lia.
-    + constructor; ksimp; try reflexivity; try lia.
-      * exists []. rewrite !app_nil_r. split; [reflexivity|]. rewrite <- app_assoc, tk_dr. reflexivity.
-      * rewrite lenN_app, len_tk. lia.
-      * eexists; reflexivity.
-      * exists []. rewrite app_nil_r. reflexivity.
-    + apply SW_full; ksimp; lia.
+    + apply GStep_same with (e := tk gcap (k_outPend k)); ksimp; try reflexivity; try lia.
+      * apply tk_dr.
+      * rewrite len_tk. lia.
+    + apply SW_full; ksimp; try reflexivity; lia.
     + intros _. exact Hh.
+Qed.
+
+Lemma IterOK_trans P cs0 dir c1 c2 g1 g2 r :
+  GStep cs0 c1 c2 g1 g2 -> phi g2 <= phi g1 -> IterOK P cs0 dir c2 g2 r -> IterOK P cs0 dir c1 g1 r.
+Proof.
+  intros S Hphi. destruct r as [g'|g'|e]; cbn [IterOK]; auto.
+  - intros (c3 & K & S' & Hst & Hp & Hh). exists c3.
+    split; [exact K|split; [eapply GStep_trans; eauto|split; [exact Hst|split; [lia|exact Hh]]]].
+  - intros (c3 & K & S' & W & Hh). exists c3.
+    split; [exact K|split; [eapply GStep_trans; eauto|split; [exact W|exact Hh]]].
+Qed.
+
+Lemma complete_snoc l c : nolast l -> complete (l ++ [(c, true)]).
+Proof. intros H. exists l, c. split; [reflexivity|exact H]. Qed.
+
+(* ---------- compressing the pending chunk ---------- *)
+Lemma g_compress_spec P cs0 dir chunks g :
+  KI P cs0 chunks (g_k g) -> k_stage (g_k g) = KLoad -> k_held (g_k g) = [] ->
+  (if kp_stableIn P then g_in g <> [] \/ dir = DirEnd
+   else k_inPend (g_k g) <> [] \/ (dir = DirEnd /\ g_in g = [])) ->
+  IterOK P cs0 dir chunks g (g_compress P dir g).
+Proof.
+  intros K Hst Hh Hne. destruct g as [k gin gip gout gcap]. ksimp.
+  pose proof (ki_load _ _ _ _ K Hst) as (Hc0 & Hfe & Hpos).
+  pose proof (ki_out _ _ _ _ K) as Ho.
+  pose proof (ki_bs _ _ _ _ K ltac:(congruence)) as Hbs.
+  assert (Hop : k_outPend k = []) by (apply lenN_zero_nil; lia).
+  pose proof (ki_nolast _ _ _ _ K Hfe) as Hnl.
+  unfold CStreamModel.g_compress. ksimp.
+  destruct (kp_stableIn P) eqn:ESI; cbn [negb].
+  - (* stable input: the chunk is taken from the caller's buffer *)
+    pose proof (ki_in _ _ _ _ K) as Hin. rewrite ESI in Hin.
+    set (iSize := N.min (lenN gin) (k_blockSize k)).
+    set (isEnd := match dir with DirEnd => true | _ => false end).
+    set (last := andb isEnd (lenN (dr iSize gin) =? 0)).
+    destruct (compress_chunk (k_cs k) (tk iSize gin) last) as [cs' cout] eqn:ECC.
+    set (direct := orb (fits_bound gcap iSize) (kp_stableOut P)).
+    destruct (N.ltb_spec (if direct then gcap else k_outBuffSize k) (lenN cout)) as [Hbig|Hfit]; [reflexivity|].
+    set (chunks' := chunks ++ [(tk iSize gin, last)]).
+    assert (Hst' : st_of cs0 chunks' = cs').
+    { unfold chunks'. rewrite st_of_snoc, <- (ki_cs _ _ _ _ K), ECC. reflexivity. }
+    assert (Hout' : outs cs0 chunks' = outs cs0 chunks ++ cout).
+    { unfold chunks'. rewrite outs_snoc, <- (ki_cs _ _ _ _ K), ECC. reflexivity. }
+    assert (Hlast : last = true -> dr iSize gin = []).
+    { unfold last. intros H. apply andb_prop in H. destruct H as [_ H]. apply N.eqb_eq in H. apply lenN_zero_nil. exact H. }
+    assert (Hnz : last = false -> 1 <= iSize).
+    { intros Hl. unfold iSize. destruct Hne as [Hne|Hne].
+      - assert (lenN gin <> 0) by (intros Z; apply Hne, lenN_zero_nil, Z). lia.
+      - subst dir. unfold last, isEnd in Hl. cbn [andb] in Hl. apply N.eqb_neq in Hl. rewrite len_dr in Hl. unfold iSize in Hl. lia. }
+    assert (KI' : forall st content flushed pend,
+              flushed + lenN pend = content ->
+              (st = KLoad -> content = 0 /\ last = false) ->
+              (st = KInit -> pend = []) ->
+              KI P cs0 chunks' (k_set_out (k_set_cs k cs' last) st content flushed pend)).
+    { intros st content flushed pend Hsum Hld Hini. destruct K. constructor; ksimp; rewrite ?ESI; ki_close.
+      all: try (intros E; destruct (Hld E); repeat split; auto; intros; discriminate).
+      all: try (intros; discriminate).
+      all: try (intros Hl; unfold chunks'; rewrite Hl; apply nolast_snoc; exact Hnl).
+      all: try (intros Hl; split; [unfold chunks'; rewrite Hl; apply complete_snoc; exact Hnl|auto]).
+      all: try (intros E; split; auto). }
+    destruct direct eqn:Edir.
+    + (* written straight into the caller's output *)
+      destruct last eqn:El.
+      * cbn [IterOK]. exists chunks'. split; [|split; [|split]].
+        -- pose proof (KI' KInit 0 0 []) as H. ksimp. rewrite Hc0, Hop in *.
+           replace (k_outFlushed k) with 0 by lia. apply H; auto; intros; discriminate.
+        -- apply GStep_mk with (d := cout) (e := cout); ksimp; rewrite ?Hin, ?Hh, ?Hop; cbn [app]; try reflexivity.
+           ++ unfold chunks_in. cbn. rewrite app_nil_r, Hlast by reflexivity. rewrite app_nil_r.
+              rewrite <- (tk_dr iSize gin) at 2. rewrite Hlast by reflexivity. rewrite app_nil_r. reflexivity.
+           ++ exact Hout'.
+           ++ rewrite app_nil_r. reflexivity.
+           ++ rewrite len_dr. pose proof (len_tk iSize gin). unfold iSize. lia.
+           ++ rewrite len_dr. lia.
+           ++ lia.
+        -- apply SW_ended; ksimp; auto.
+        -- intros; congruence.
+      * cbn [IterOK]. exists chunks'. split; [|split; [|split; [|split]]].
+        -- pose proof (KI' KLoad 0 0 []) as H. ksimp. rewrite Hc0, Hop in *.
+           replace (k_outFlushed k) with 0 by lia. rewrite Hst. apply H; auto; intros; discriminate.
+        -- apply GStep_mk with (d := cout) (e := cout); ksimp; rewrite ?Hin, ?Hh, ?Hop; cbn [app]; try reflexivity.
+           ++ unfold chunks_in. cbn. rewrite app_nil_r. apply tk_dr.
+           ++ exact Hout'.
+           ++ rewrite app_nil_r. reflexivity.
+           ++ rewrite len_dr. pose proof (len_tk iSize gin). unfold iSize. lia.
+           ++ rewrite len_dr. lia.
+           ++ lia.
+        -- ksimp. exact Hst.
+        -- unfold phi. ksimp. rewrite Hst, Hin, len_dr. specialize (Hnz eq_refl). unfold iSize in *. lia.
+        -- ksimp. exact Hh.
+    + (* into outBuff, then the flush stage *)
+      set (gmid := g_mk (k_set_out (k_set_cs k cs' last) KFlush (lenN cout) 0 cout) (dr iSize gin) (gip + iSize) gout gcap).
+      apply IterOK_trans with (c2 := chunks') (g2 := gmid).
+      * apply GStep_mk with (d := cout) (e := []); unfold gmid; ksimp; rewrite ?Hin, ?Hh, ?Hop; cbn [app]; try reflexivity.
+        -- unfold chunks_in. cbn. rewrite app_nil_r. apply tk_dr.
+        -- exact Hout'.
+        -- rewrite app_nil_r. reflexivity.
+        -- rewrite len_dr. pose proof (len_tk iSize gin). unfold iSize. lia.
+        -- rewrite len_dr. lia.
+        -- cbn. lia.
+      * unfold phi, gmid. ksimp. rewrite Hst, Hin, len_dr.
+        destruct last eqn:El.
+        -- rewrite Hlast by reflexivity. cbn [lenN]. destruct gin; cbn; lia.
+        -- specialize (Hnz eq_refl). unfold iSize in *. lia.
+      * apply g_flush_spec; unfold gmid; ksimp; auto.
+        apply KI'; auto; intros; discriminate.
+  - (* buffered input: the chunk is inBuff[inToCompress .. inBuffPos) *)
+    pose proof (ki_in _ _ _ _ K) as Hin. rewrite ESI in Hin. destruct Hin as [Hsum Hle].
+    set (isEnd := match dir with DirEnd => true | _ => false end).
+    set (last := andb isEnd (lenN gin =? 0)).
+    destruct (compress_chunk (k_cs k) (k_inPend k) last) as [cs' cout] eqn:ECC.
+    set (iSize := k_inBuffPos k - k_inToCompress k).
+    set (direct := orb (fits_bound gcap iSize) (kp_stableOut P)).
+    destruct (N.ltb_spec (if direct then gcap else k_outBuffSize k) (lenN cout)) as [Hbig|Hfit]; [reflexivity|].
+    set (chunks' := chunks ++ [(k_inPend k, last)]).
+    assert (Hst' : st_of cs0 chunks' = cs').
+    { unfold chunks'. rewrite st_of_snoc, <- (ki_cs _ _ _ _ K), ECC. reflexivity. }
+    assert (Hout' : outs cs0 chunks' = outs cs0 chunks ++ cout).
+    { unfold chunks'. rewrite outs_snoc, <- (ki_cs _ _ _ _ K), ECC. reflexivity. }
+    assert (Hlast : last = true -> gin = []).
+    { unfold last. intros H. apply andb_prop in H. destruct H as [_ H]. apply N.eqb_eq in H. apply lenN_zero_nil. exact H. }
+    assert (Hnz : last = false -> k_inPend k <> []).
+    { intros Hl. destruct Hne as [Hne|[-> Hne]]; [exact Hne|]. subst gin. discriminate Hl. }
+    set (k2 := if k_inBuffSize k <? k_inBuffPos k + k_blockSize k
+               then k_set_in (k_set_cs k cs' last) 0 0 (k_blockSize k) []
+               else k_set_in (k_set_cs k cs' last) (k_inBuffPos k) (k_inBuffPos k) (k_inBuffPos k + k_blockSize k) []).
+    assert (K2 : k_inPend k2 = [] /\ k_held k2 = k_held k /\ k_outPend k2 = k_outPend k /\ k_stage k2 = k_stage k /\
+                 k_cs k2 = cs' /\ k_frameEnded k2 = last /\ k_outContent k2 = k_outContent k /\ k_outFlushed k2 = k_outFlushed k /\
+                 k_blockSize k2 = k_blockSize k /\
+                 k_inToCompress k2 + 0 = k_inBuffPos k2 /\ k_inBuffPos k2 < k_inBuffTarget k2).
+    { unfold k2. destruct (k_inBuffSize k <? k_inBuffPos k + k_blockSize k); ksimp; repeat split; lia. }
+    destruct K2 as (K2a & K2b & K2c & K2d & K2e & K2f & K2g & K2h & K2i & K2j & K2k).
+    assert (KI' : forall st content flushed pend,
+              flushed + lenN pend = content ->
+              (st = KLoad -> content = 0 /\ last = false) ->
+              (st = KInit -> pend = []) ->
+              KI P cs0 chunks' (k_set_out k2 st content flushed pend)).
+    { intros st content flushed pend Hsum' Hld Hini. destruct K. constructor; ksimp; rewrite ?ESI, ?K2a, ?K2e, ?K2f, ?K2i; ki_close.
+      all: try (rewrite lenN_nil; split; lia).
+      all: try (intros E; destruct (Hld E); repeat split; auto; intros; discriminate).
+      all: try (intros; discriminate).
+      all: try (intros Hl; unfold chunks'; rewrite Hl; apply nolast_snoc; exact Hnl).
+      all: try (intros Hl; split; [unfold chunks'; rewrite Hl; apply complete_snoc; exact Hnl|auto]).
+      all: try (intros E; split; auto). }
+    fold k2.
+    destruct direct eqn:Edir.
+    + destruct last eqn:El.
+      * cbn [IterOK]. exists chunks'. split; [|split; [|split]].
+        -- pose proof (KI' KInit (k_outContent k) (k_outFlushed k) (k_outPend k)) as H.
+           assert (Hk : k_session_reset k2 = k_set_out k2 KInit (k_outContent k) (k_outFlushed k) (k_outPend k)).
+           { unfold k_session_reset, k_set_stage, k_set_out. f_equal; auto. }
+           ksimp. unfold k_session_reset in Hk. ksimp. rewrite Hk. apply H; auto; intros; try discriminate.
+        -- apply GStep_mk with (d := cout) (e := cout); ksimp; rewrite ?K2a, ?K2b, ?K2c, ?Hh, ?Hop; cbn [app]; try reflexivity; try lia.
+           ++ unfold chunks_in. cbn. rewrite app_nil_r. reflexivity.
+           ++ exact Hout'.
+           ++ rewrite app_nil_r. reflexivity.
+        -- apply SW_ended; ksimp; rewrite ?K2f, ?K2c; auto.
+        -- intros _. ksimp. rewrite K2b. exact Hh.
+      * cbn [IterOK]. exists chunks'. split; [|split; [|split; [|split]]].
+        -- pose proof (KI' KLoad (k_outContent k) (k_outFlushed k) (k_outPend k)) as H.
+           assert (Hk : k2 = k_set_out k2 KLoad (k_outContent k) (k_outFlushed k) (k_outPend k)).
+           { destruct k2; ksimp. subst. reflexivity. }
+           ksimp. rewrite Hk. apply H; auto; intros; try discriminate. split; [lia|reflexivity].
+        -- apply GStep_mk with (d := cout) (e := cout); ksimp; rewrite ?K2a, ?K2b, ?K2c, ?Hh, ?Hop; cbn [app]; try reflexivity; try lia.
+           ++ unfold chunks_in. cbn. rewrite app_nil_r. reflexivity.
+           ++ exact Hout'.
+           ++ rewrite app_nil_r. reflexivity.
+        -- ksimp. rewrite K2d. exact Hst.
+        -- unfold phi. ksimp. rewrite K2a, K2d, Hst. specialize (Hnz eq_refl). destruct (k_inPend k); [congruence|lia].
+        -- ksimp. rewrite K2b. exact Hh.
+    + set (gmid := g_mk (k_set_out k2 KFlush (lenN cout) 0 cout) gin gip gout gcap).
+      apply IterOK_trans with (c2 := chunks') (g2 := gmid).
+      * apply GStep_mk with (d := cout) (e := []); unfold gmid; ksimp; rewrite ?K2a, ?K2b, ?Hh, ?Hop; cbn [app]; try reflexivity; try lia.
+        -- unfold chunks_in. cbn. rewrite app_nil_r. reflexivity.
+        -- exact Hout'.
+        -- rewrite app_nil_r. reflexivity.
+        -- cbn. lia.
+      * unfold phi, gmid. ksimp. rewrite Hst.
+        destruct last eqn:El.
+        -- rewrite Hlast by reflexivity. cbn [lenN]. destruct (k_inPend k); cbn; lia.
+        -- specialize (Hnz eq_refl). destruct (k_inPend k); [congruence|lia].
+      * apply g_flush_spec; unfold gmid; ksimp; rewrite ?K2b; auto.
+        apply KI'; auto; intros; discriminate.
 Qed.
 
 End CProofs.
